@@ -321,6 +321,40 @@ func main() {
 			}
 		}
 	}
+	// arbitrary bytes: the theorems hold for EVERY body, so the model must agree with the code on damaged frames too.
+	// A well-formed frame gets one byte overwritten (anywhere, array counts included — since the fix for the
+	// unbounded reflect.MakeSlice in read.go a corrupted count fails without allocating) or one array count changed
+	// by a little.  The monitor: a frame that is still an encoding of the layout is judged as such; any other frame is
+	// a framing error (A fails and so does B, or a broker error is reported and the Conn stays aligned).  Fetch and
+	// ApiVersions have their own families (their documented corners — watermark, trailing bytes — are one byte away).
+	nfuzz := 12
+	if thorough {
+		nfuzz = 80
+	}
+	for _, op := range connfake.Ops {
+		if op.Name == "apiVersions" || op.Name == "fetch" {
+			continue
+		}
+		for _, v := range op.Versions {
+			for i := 0; i < nfuzz; i++ {
+				sh := &connfake.Shape{Topic: topic}
+				w := &connfake.W{}
+				op.Build(v, w, r, sh)
+				if len(w.B) == 0 {
+					continue
+				}
+				if len(w.CntPos) > 0 && r.Intn(3) == 0 {
+					c := w.CntPos[r.Intn(len(w.CntPos))]
+					w.B[c+3] = byte(int(w.B[c+3]) + []int{-1, 1, 2}[r.Intn(3)]) // count ± a little (0 − 1 = 255 elements: still harmless)
+				} else {
+					p := r.Intn(len(w.B))
+					w.B[p] = gen.Bytes(r, 1)[0]
+				}
+				a := &inst{op, v, w.B, sh}
+				emit(a, follower(a))
+			}
+		}
+	}
 	// partial reads: read j of the n records of a fetch response (every j, and Close at once), then Close, then the next
 	// operation — plain and every codec, one batch and two batches, message formats 1 and 2.  Batch.Close must leave
 	// the Conn at the next frame whatever was read (Conn.ReadMessage / Conn.Read read exactly one record).
